@@ -1,9 +1,10 @@
 #!/bin/bash
 # Builds the real pumpkin-solver binary from /repo's working tree into harness/target-cli
-# (release semantics, but without LTO and with unwinding so that the build is fast).
+# (release optimisation, without LTO and with unwinding so that the build is fast; arithmetic overflow
+# checks are enabled as in the harness build, so that a wrap-around shows as a crash).
 set -eu
 ROOT="$(cd "$(dirname "$0")" && pwd)"
 export CARGO_NET_OFFLINE=true
-export CARGO_PROFILE_RELEASE_LTO=false CARGO_PROFILE_RELEASE_CODEGEN_UNITS=16 CARGO_PROFILE_RELEASE_PANIC=unwind
+export CARGO_PROFILE_RELEASE_LTO=false CARGO_PROFILE_RELEASE_CODEGEN_UNITS=16 CARGO_PROFILE_RELEASE_PANIC=unwind CARGO_PROFILE_RELEASE_OVERFLOW_CHECKS=true
 cd /repo
 cargo build --release --offline -p pumpkin-solver --bin pumpkin-solver --target-dir "$ROOT/harness/target-cli" >"$ROOT/harness/build-cli.log" 2>&1 || { tail -30 "$ROOT/harness/build-cli.log" >&2; exit 2; }
